@@ -337,7 +337,7 @@ mutant('C15', 'limit-2i0-to-i0', SLC, "                            2*no_load_ele
 mutant('C15', 'limit-speed-ratio-inverted', SLC, "        speed_ratio = angular_speed/no_load_speed", "        speed_ratio = no_load_speed/angular_speed", 'C15')
 mutant('C15', 'motor-current-law-changed-under-rule', DC, "                load_factor + no_load_electric_current", "                load_factor - no_load_electric_current", 'C15.limit-identity')
 benign('C15', 'limit-half-factor', SLC, "            return 1/2*(", "            return 0.5*(")
-benign('C15', 'reach-rename', RA, "regime_angular_position_error", "static_err")
+multi('C15', 'reach-rename', 'benign', [(RA, "regime_angular_position_error", "static_err", 0)] * 2)
 benign('C15', 'timer-rewritten-end', TM, "((current_time - self.start_time) <= self.duration)", "(current_time <= self.start_time + self.duration)")
 
 SV = 'gearpy/solver.py'
